@@ -508,21 +508,7 @@ class Verifier(Engine):
             raise Unsupported("for over range (use while)", it)
         v = self.expr(it, st)
         if isinstance(v.ty, SetTy):
-            # arbitrary duplicate-free enumeration of the set
-            k = self.site()
-            sq = self.fresh(f"enum{k}", SeqTy(v.ty.elem))
-            j, j2 = z3.Ints(f"j{k} jj{k}")
-            mem = self.pre.setf(v.ty, "mem")
-            self.assume(st, z3.ForAll([j], z3.Implies(z3.And(0 <= j, j < self.seq_len(sq)), mem(v.t, self.seq_idx(sq, j).t)),
-                                      patterns=[self.seq_idx(sq, j).t]))
-            self.assume(st, z3.ForAll([j, j2], z3.Implies(z3.And(0 <= j, j < j2, j2 < self.seq_len(sq)),
-                                                          self.seq_idx(sq, j).t != self.seq_idx(sq, j2).t),
-                                      patterns=[z3.MultiPattern(self.seq_idx(sq, j).t, self.seq_idx(sq, j2).t)]))
-            x = z3.Const(f"x{k}", self.sort(v.ty.elem))
-            pos = z3.Function(f"enumpos{k}", self.sort(v.ty.elem), z3.IntSort())
-            self.assume(st, z3.ForAll([x], z3.Implies(mem(v.t, x), z3.And(self.pre.seqf(sq.ty, "count")(sq.t, x) >= 1, 0 <= pos(x), pos(x) < self.seq_len(sq),
-                                                                           self.seq_idx(sq, pos(x)).t == x)), patterns=[mem(v.t, x)]))
-            return sq, "plain"
+            return self.enumerate_set(v, st), "plain"
         return self.as_seq(v, st), "plain"
 
     def s_While(self, s: ast.While, st: State) -> list[Outcome]:
